@@ -4,7 +4,7 @@
 # stores it as /verif/seeded/<PROP>-<n>/ and runs the given checks (default: <PROP>) against a scratch worktree with it.
 export GOFLAGS=-mod=mod GOPROXY=off GOSUMDB=off GOTOOLCHAIN=local
 P=$1; N=$2; shift 2; CHECKS=${*:-$P}
-R=${ROUND:-}; OFF=0; [ "$R" = 2 ] && OFF=3; src=/tmp/seed$R-$P/out/$N; wt=/tmp/try-$P-$N; dst=/verif/seeded/$P-$((N+OFF))
+R=${ROUND:-}; OFF=0; [ -n "$R" ] && OFF=$((3*(R-1))); src=/tmp/seed$R-$P/out/$N; wt=/tmp/try-$P-$N; dst=/verif/seeded/$P-$((N+OFF))
 [ -f $src/patch.diff ] || { echo "no patch $src"; exit 2; }
 git -C /repo worktree add --detach $wt HEAD -q || exit 2
 cp -r /tmp/seed$R-$P/out $wt/out 2>/dev/null   # demos are run from the worktree root as ./out/<n>/demo
@@ -34,7 +34,7 @@ mkdir -p $dst; cp $src/patch.diff $dst/; cp -r $src/demo $dst/ 2>/dev/null; cp $
 python3 - "$P" "$N" "$b" "$d0" "$d1" "$t" "$res" <<'PY'
 import json,sys,os
 P,N,b,d0,d1,t,res=sys.argv[1:8]
-dst=f'/verif/seeded/{P}-{int(N)+(3 if os.environ.get("ROUND")=="2" else 0)}'; mp=os.path.join(dst,'meta.json')
+dst=f'/verif/seeded/{P}-{int(N)+3*(int(os.environ.get("ROUND") or 1)-1)}'; mp=os.path.join(dst,'meta.json')
 m=json.load(open(mp)) if os.path.exists(mp) else {}
 m.update({"property":P,"source":"fresh sub-agent given only the property text and a scratch worktree",
  "confirmed":{"go build ./...":int(b)==0,"demo passes without the change":int(d0)==0,"demo fails with the change":int(d1)!=0,"existing suite passes with the change (env -u AWS_CA_BUNDLE go test -vet=off -count=1 ./...)":int(t)==0},
